@@ -117,8 +117,29 @@ def dml_programs(tier):
     yield {"calls": [["update", T], ["set", "a", raw(1)], ["where", ["cmp", "=", fid, raw(2)]], ["returning", [["name", "id"]]]]}
     yield {"calls": [["from", T], ["select", [fa]], ["where", ["cmp", "=", fa, raw(1)]], ["fetch_next", 5], ["offset", 2]]}
     yield {"calls": [["from", T], ["select", [fa]], ["where", ["cmp", "=", fa, raw(1)]], ["top", 5]]}
+    yield from alias_reuse_programs()
     yield {"calls": [["from", T], ["select", [fa, ["agg", "SUM", fb]]], ["where", ["cmp", "=", fa, raw(1)]],
                      ["groupby", [["as", ["arith", "+", fa, raw(2)], "g"]]], ["select", [["as", ["arith", "+", fa, raw(2)], "g"]]]]}
+
+
+def alias_reuse_programs():
+    """a value-carrying term that is selected under an alias and reused (same alias) in GROUP BY / ORDER BY / both: where
+    the dialect prints only the alias there, the term's values must not be collected a second time"""
+    terms = [["arith", "+", fa, raw(11)], ["case", [[["cmp", "=", fa, raw(11)], raw("s'x")]], raw(2.5)], ["coalesce", [fa, raw(7)]],
+             ["arith", "*", ["arith", "+", fa, raw(11)], raw(3)]]
+    for t in terms:
+        al = ["as", t, "s1"]
+        for extra in ([], [["where", ["cmp", ">", fb, raw(4)]]]):
+            for tail in ([], [["limit", 3], ["offset", 2]]):
+                yield {"calls": [["from", T], ["select", [al, fb]]] + extra + [["orderby", [al], "desc"]] + tail}
+                yield {"calls": [["from", T], ["select", [fb, al]]] + extra + [["orderby", [fb], "asc"], ["orderby", [al], "asc"]] + tail}
+                yield {"calls": [["from", T], ["select", [al, ["agg", "SUM", fb]]]] + extra + [["groupby", [al]]] + tail}
+                yield {"calls": [["from", T], ["select", [al, ["agg", "SUM", fb]]]] + extra + [["groupby", [al]], ["orderby", [al], "asc"]] + tail}
+                # the alias is not in the select list: the expression itself is printed (and its values collected once)
+                yield {"calls": [["from", T], ["select", [fb]]] + extra + [["orderby", [al], "desc"]] + tail}
+                yield {"calls": [["from", T], ["select", [["agg", "SUM", fb]]]] + extra + [["groupby", [al]]] + tail}
+        yield {"calls": [["from", ["q", "sq0", {"calls": [["from", T], ["select", [al, fb]], ["orderby", [al], "desc"], ["limit", 5]]}, "sq0"]],
+                         ["select", [["f", "sq0", "s1"]]], ["where", ["cmp", "=", ["f", "sq0", "s1"], raw(9)]]]}
 
 
 def setop_programs(tier):
